@@ -12,7 +12,7 @@ for d in seeded/C*-*; do
   if [ "$MODE" = all ]; then ids="C02 C03 C06 C07 C08 C09 C10 C11 C12 C14 C15 C18 C19 C20"; else ids="$pid"; fi
   res=""
   for id in $ids; do
-    out=$(timeout 3000 ./check $id quick 2>&1); rc=$?
+    out=$(SCALESIM_NO_SHRINK=1 timeout 3000 ./check $id quick 2>&1); rc=$?
     cls=$(echo "$out" | grep -E "^  class=" | sed 's/^  class=\([^ ]*\).*/\1/' | sort -u | tr '\n' ',' | sed 's/,$//')
     if [ $rc -eq 1 ]; then res="$res\"$id\": \"VIOLATION: $cls\", "; elif [ $rc -eq 0 ]; then res="$res\"$id\": \"quiet\", "; else res="$res\"$id\": \"harness-exit-$rc\", "; fi
     echo "$key $id rc=$rc $cls"
